@@ -126,7 +126,8 @@ func LayerConvertFuncWithCompressionLevel(compressionLevel zstd.EncoderLevel, op
 		defer uncompressedReaderAt.Close()
 		uncompressedSR := io.NewSectionReader(uncompressedReaderAt, 0, uncompressedDesc.Size)
 		metadata := make(map[string]string)
-		opts = append(opts, estargz.WithCompression(&zstdCompression{
+		// copy the options; layers are converted in parallel and must not share the slice
+		opts := append(append([]estargz.Option{}, opts...), estargz.WithCompression(&zstdCompression{
 			new(zstdchunked.Decompressor),
 			&zstdchunked.Compressor{
 				CompressionLevel: compressionLevel,
